@@ -9,7 +9,7 @@ if ! diff -q /tmp/seed/$id-cur.diff $O/patch.diff >/dev/null; then echo "NOTE: w
 go1.26 build ./... || { echo "BUILD FAILS"; exit 1; }
 go1.26 test -vet=off -count=1 ./... > /tmp/seed/$id-tests.txt 2>&1; trc=$?
 echo "tests rc=$trc fails=$(grep -c '^FAIL\|^--- FAIL' /tmp/seed/$id-tests.txt)"
-demo=$O/demo.sh
+demo=$O/demo.sh; [ -f $demo ] || demo=$O/demo/demo.sh
 bash $demo $W > /tmp/seed/$id-with.txt 2>&1; with=$?
 git diff > /tmp/seed/$id-v.diff; git apply -R /tmp/seed/$id-v.diff
 bash $demo $W > /tmp/seed/$id-without.txt 2>&1; without=$?
